@@ -11,11 +11,13 @@ C04 — column lineage chains across statements.
     soundness/completeness of the enumeration + cycle removal).
 (3) Composition: for two statement graphs whose only shared columns are columns that the first only produces and the second
     only consumes (the intermediate table), the end‑to‑end pairs of the composed graph are  R₁;R₂ ∪ dangling₁ ∪ fresh₂
-    (`chain_composition`), with Rᵢ the per‑statement end‑to‑end pairs.
+    (`chain_composition`), with Rᵢ the per‑statement end‑to‑end pairs; `script_chain_composition` states it for the graph
+    `Assemble.build` returns for two `Resolved` (no multi‑candidate column), DROP/RENAME‑free statement holders.
 (4) D11 (finding): unresolved same‑named columns of different statements are ONE node (`dev_D11`), so `Resolved` is needed.
 -/
 import SqlLineage.Model.Chain
 import SqlLineage.Proofs.PathLemmas
+import SqlLineage.Proofs.ChainLemmas
 
 namespace SqlLineage.Props.C04
 open SqlLineage Graph Paths Holder Runner Chain Ast
@@ -556,6 +558,44 @@ theorem chain_composition (g₁ g₂ : LGraph) (hwf₁ : WF g₁) (hwf₂ : WF g
           have := ((mem_roots g₂ b).mp hbr).2.2 x hx
           rw [hxc] at this; cases this
 
+/-- `Resolved`: no column of the statement holder has several owner candidates (what D11 violates) -/
+abbrev Resolved (h : LGraph) : Prop := NoMulti h
+
+/-- CHAIN COMPOSITION ON THE MODEL'S COMBINED GRAPH: for two statement holders that are neither DROP nor RENAME, are `Resolved`,
+    well‑formed, `ColOut`, and share only intermediate columns, the assembler succeeds and the end‑to‑end pairs of the graph it
+    returns are  R₁;R₂ ∪ (pairs of 1 not consumed by 2) ∪ (pairs of 2 not produced by 1), Rᵢ = the pairs of statement i alone. -/
+theorem script_chain_composition (prov : Assemble.Prov) (h₁ h₂ : LGraph) (p₁ : PlainStmt h₁) (p₂ : PlainStmt h₂)
+    (r₁ : Resolved h₁) (r₂ : Resolved h₂) (hwf₁ : WF h₁) (hwf₂ : WF h₂) (hco₁ : ColOut h₁) (hco₂ : ColOut h₂)
+    (hsh : SharedOnlyIntermediate h₁ h₂) :
+    ∃ g, Assemble.build prov [h₁, h₂] = .ok g ∧ ∀ a b,
+      ((a, b) ∈ flow g ↔
+        (∃ m, (a, m) ∈ flow h₁ ∧ (m, b) ∈ flow h₂) ∨
+        ((a, b) ∈ flow h₁ ∧ ∀ c, c.isCol = true → ¬ Edge h₂ b c) ∨
+        ((a, b) ∈ flow h₂ ∧ ∀ c, c.isCol = true → ¬ Edge h₁ c a)) := by
+  have hb := build_two prov h₁ h₂ p₁ p₂ r₁ r₂
+  refine ⟨two h₁ h₂, hb, fun a b => ?_⟩
+  have hall : ∀ h ∈ [h₁, h₂], WF h := by
+    intro h hh; simp only [List.mem_cons, List.mem_nil_iff, or_false] at hh
+    rcases hh with rfl | rfl
+    · exact hwf₁
+    · exact hwf₂
+  have hallc : ∀ h ∈ [h₁, h₂], ColOut h ∧ Assemble.stmtRename h = [] := by
+    intro h hh; simp only [List.mem_cons, List.mem_nil_iff, or_false] at hh
+    rcases hh with rfl | rfl
+    · exact ⟨hco₁, p₁.2⟩
+    · exact ⟨hco₂, p₂.2⟩
+  have hw : WF (two h₁ h₂) := buildWith_wf id prov _ _ hall hb
+  have hc : ColOut (two h₁ h₂) := buildWith_colOut id prov _ _ hallc hb
+  have hcongr := columnLineage_congr (two h₁ h₂) (h₁.compose h₂) hw (wf_compose h₁ h₂ hwf₁ hwf₂)
+    (fun u v h hu => (hc u v h hu).1) (two_nodes h₁ h₂) (fun u v hu => two_col_edges h₁ h₂ u v hu)
+  have : (a, b) ∈ flow (two h₁ h₂) ↔ (a, b) ∈ flow (h₁.compose h₂) := by
+    simp only [flow, mem_endpoints]
+    constructor
+    · rintro ⟨p, hp, h1, h2⟩; exact ⟨p, (hcongr p).mp hp, h1, h2⟩
+    · rintro ⟨p, hp, h1, h2⟩; exact ⟨p, (hcongr p).mpr hp, h1, h2⟩
+  rw [this]
+  exact chain_composition h₁ h₂ hwf₁ hwf₂ hco₁ hco₂ hsh a b
+
 instance (g₁ g₂ : LGraph) : Decidable (SharedOnlyIntermediate g₁ g₂) := by
   unfold SharedOnlyIntermediate; exact inferInstance
 
@@ -665,6 +705,17 @@ example : flow (gA.compose gB) =
     [((cl "src" "a").key, (cl "tgt" "b").key), ((cl "src" "k").key, (cl "mid" "k").key), ((cl "other" "z").key, (cl "tgt" "z").key)] := by
   decide +kernel
 example : ((cl "src" "a").key, (cl "mid" "a").key) ∈ flow gA ∧ ((cl "mid" "a").key, (cl "tgt" "b").key) ∈ flow gB := by decide +kernel
+-- script_chain_composition: the same two statements as statement HOLDERS (read/write tags + column lineage), through `Assemble.build`
+private def mkStmt (r w : String) (es : List (Column × Column)) : LGraph :=
+  es.foldl (fun g e => match addColumnLineage g e.1 e.2 with | .ok g' => g' | .error _ => g)
+    (addWrite (addRead Graph.empty (.table "<default>" r) (some r)) (.table "<default>" w))
+private def hA : LGraph := mkStmt "src" "mid" [(cl "src" "a", cl "mid" "a"), (cl "src" "k", cl "mid" "k")]
+private def hB : LGraph := mkStmt "mid" "tgt" [(cl "mid" "a", cl "tgt" "b")]
+example : PlainStmt hA ∧ PlainStmt hB ∧ WF hA ∧ WF hB ∧ SharedOnlyIntermediate hA hB ∧
+    (∀ n ∈ hA.nodes, (Assemble.cands hA n).length ≤ 1) ∧ (∀ n ∈ hB.nodes, (Assemble.cands hB n).length ≤ 1) := by
+  decide +kernel
+example : (match Assemble.build Assemble.Prov.none [hA, hB] with | .ok g => flow g | .error _ => []) =
+    [((cl "src" "a").key, (cl "tgt" "b").key), ((cl "src" "k").key, (cl "mid" "k").key)] := by decide +kernel
 -- endpoints_eq_reach on a graph WITH a cycle (a → b → c → b, c → d): the pair (a, d) is still reported
 private def gCyc : LGraph := mk [(cl "t" "a", cl "u" "b"), (cl "u" "b", cl "u" "c"), (cl "u" "c", cl "u" "b"), (cl "u" "c", cl "v" "d")]
 example : WF gCyc ∧ endpoints (columnLineage gCyc) = [((cl "t" "a").key, (cl "v" "d").key)] := by decide +kernel
